@@ -5,4 +5,5 @@ import "verif/harness/internal/cmsrt"
 func init() {
 	register("cms-replay", cmsrt.Replay)
 	register("cms-own", cmsrt.Own)
+	register("cms-pss", cmsrt.Pss)
 }
